@@ -240,7 +240,11 @@ def whitelist(ctx, s: Sib):
             C, x = sym("§carry"), sym("§x")
             body = s.ev.open_closure(f, [C, x])
             y = strip_wrappers(body.args[1]) if body.op == "tuple" else None
-            ys = list(y.args) if (y is not None and y.op == "list") else [y]
+            if y is not None and y.op == "call" and (array_fn(y) or "") in ("stack", "array", "asarray"):
+                ps_ = call_parts(y)[1]
+                if ps_ and strip_wrappers(ps_[0]).op in ("list", "tuple"):
+                    y = strip_wrappers(ps_[0])
+            ys = list(y.args) if (y is not None and y.op in ("list", "tuple")) else [y]
             yy = strip_wrappers(ys[ci] if cls == "uhf" and len(ys) == 2 else ys[0])
             w = m_where(yy)
             if w is None:
